@@ -1,4 +1,7 @@
 import OdcGeo.Model.C09
+import OdcGeo.Model.C09Reproject
+import OdcGeo.Model.C09Glue
+import OdcGeo.Drv.C11
 namespace OdcGeo.C09.Drv
 open OdcGeo OdcGeo.IO OdcGeo.C09
 
@@ -99,8 +102,187 @@ def mkDs (a : XArr) (extra : Bool) : List (String × XArr) :=
         | .crs _ => true | .scalar => true | _ => false) ++ [("t", .other 3)], none, []⟩
   [("a", a), ("b", b)] ++ (if extra then [("c", c)] else [])
 
+
+/-! ### `xr_reproject` with a CRS destination (C09 × C11) -/
+
+/-- `s:<text>` | `n:<rat>` | `r:<rx>:<ry>` | `o` -/
+def parseResArg? (s : String) : Option C11.ResArg :=
+  match s.splitOn ":" with
+  | ["s", t] => some (.str t)
+  | ["n", r] => (parseRat? r).map .num
+  | ["r", rx, ry] => do
+    let rx ← parseRat? rx; let ry ← parseRat? ry
+    pure (.res rx ry)
+  | ["o"] => some .other
+  | _ => none
+
+/-- `-` = not passed -/
+def parseArg? {α} (p : String → Option α) (s : String) : Option (Option α) :=
+  if s = "-" then some none else (p s).map some
+
+def parseGridArgs? (res shape tight anchor tol rnd : String) : Option C11.GridArgs := do
+  let res ← parseArg? parseResArg? res
+  let shape ← parseArg? C11.Drv.parseShape? shape
+  let tight ← parseArg? parseBool? tight
+  let anchor ← parseArg? C11.Drv.parseAnchor? anchor
+  let tol ← parseArg? parseRat? tol
+  let rnd ← parseArg? C11.Drv.parseRnd? rnd
+  pure ⟨res, shape, tight, anchor, tol, rnd⟩
+
+/-- extra keywords `k=num:<rat>` | `k=none` | `k=op:<text>` -/
+def parseKw? (s : String) : Option (String × KwVal) :=
+  match s.splitOn "=" with
+  | [k, v] =>
+    match v.splitOn ":" with
+    | ["num", r] => (parseRat? r).map (fun r => (k, KwVal.num r))
+    | ["none"] => some (k, KwVal.none)
+    | ["op", t] => some (k, KwVal.opaque t)
+    | _ => none
+  | _ => none
+
+/-- destination: a GeoBox token, or `N` followed by the CRS and what pyproj contributed -/
+def parseHow? (dst crs su rot bb cp fs : String) : Option How :=
+  if dst ≠ "N" then (parseGeoBox? dst).map How.gbox
+  else do
+    let c ← parseCrs? crs
+    let c ← c
+    let su ← parseBool? su
+    let rot ← C11.Drv.parsePair? rot
+    let bb ← C11.Drv.parseBBox? bb
+    let cp ← C11.Drv.parseBBox? cp
+    let fs ← C11.Drv.parsePair? fs
+    pure (.crs c ⟨su, rot, bb, cp, fs⟩)
+
+/-- `full = false`: the affine is elided (shape requests: `span / n` is not exact in doubles) -/
+def fmtGeoBoxF (full : Bool) (g : GeoBox) : String :=
+  if full then fmtRecovered (.lin g) else s!"L {g.ny} {g.nx} * {fmtCrs g.crs}"
+
+def fmtRecF (full : Bool) : Recovered → String
+  | .lin g => fmtGeoBoxF full g
+  | r => fmtRecovered r
+
+def fmtOutF (full : Bool) (a : XArr) : String :=
+  s!"{fmtRes (fmtRecF full) (recover a)} {fmtList id a.dims} {fmtList id (sortStr a.attrs)} " ++
+  s!"{fmtOpt id a.gridMapping} {fmtList id (sortStr (a.coords.map (·.1)))}"
+
+/-! ### argument forms of `wrap_xr` / `xr_zeros` -/
+
+/-- `N` | `s:<len>` | `s:N` (datetime) | `l:<n>` | `d:<n>` -/
+def parseTime? (s : String) : Option (Option TimeArg) :=
+  if s = "N" then some none
+  else match s.splitOn ":" with
+    | ["s", "N"] => some (some (.scalar none))
+    | ["s", n] => (parseNat? n).map (fun n => some (.scalar (some n)))
+    | ["l", n] => (parseNat? n).map (fun n => some (.list n))
+    | ["d", n] => (parseNat? n).map (fun n => some (.dataArray n))
+    | _ => none
+
+def fmtW (a : XArr) : String :=
+  s!"{fmtArr a} {fmtList id (sortStr a.attrs)} {fmtList id (sortStr (a.coords.map (·.1)))}"
+
+/-- `-` absent | `N` None | rational -/
+def parseAttrNum? (s : String) : Option AttrNum :=
+  if s = "-" then some .absent else if s = "N" then some .none else (parseRat? s).map .num
+
 def run (args : List String) : Option String :=
   match args with
+  | ["wrapxr", src, shape, time, axis, nodata, cn, attrs] => do
+    let s ← parseSrc? src
+    let shape ← parseList? parseNat? shape
+    let time ← parseTime? time
+    let axis ← parseOpt? parseInt? axis
+    let nd ← parseBool? nodata
+    let cn ← parseOpt? some cn
+    let attrs ← parseListRaw? attrs
+    pure (fmtRes fmtW (wrapXr s ⟨shape, time, axis, nd, cn, attrs⟩))
+  | ["zeros", src, time, cn, nodata, attrs] => do
+    let s ← parseSrc? src
+    let time ← parseTime? time
+    let cn ← parseOpt? some cn
+    let nd ← parseBool? nodata
+    let attrs ← parseListRaw? attrs
+    pure (fmtRes fmtW (xrZeros s time cn nd attrs))
+  | ["rtdrop", src, nt, nb, cn, ops, drop] => do
+    -- wrap, history, then `.drop_vars(drop)` of spatial coordinate names, then `.odc.geobox`
+    let r ← build src nt nb cn ops "[]"
+    let drop ← parseListRaw? drop
+    pure (fmtRes fmtRecovered (match r with
+      | .error e => .error e
+      | .ok a => recoverDropped a drop))
+  | ["gm", enc, attr] => do
+    let enc ← parseOpt? some enc; let attr ← parseOpt? some attr
+    pure (fmtOpt id (gridMappingOf enc attr))
+  | ["crsattrs", dicts] => do
+    -- `[a;b,c;d,…]`: per attribute dictionary `crs;crs_wkt`, each `-` absent | `e` unparsable | `o` other type |
+    -- `s<id>` string | `c<id>` CRS object → sorted distinct candidate ids
+    let pv := fun (t : String) => (
+      if t = "-" then some CrsAttrVal.absent
+      else if t = "e" then some (CrsAttrVal.str none)
+      else if t = "o" then some CrsAttrVal.other
+      else if t.startsWith "s" then (parseNat? (t.drop 1).toString).map (fun i => CrsAttrVal.str (some ⟨i, false⟩))
+      else if t.startsWith "c" then (parseNat? (t.drop 1).toString).map (fun i => CrsAttrVal.obj ⟨i, false⟩)
+      else none)
+    let ds ← (← parseListRaw? dicts).mapM (fun (t : String) => match t.splitOn ";" with
+      | [a, b] => do let a ← pv a; let b ← pv b; pure (a, b)
+      | _ => none)
+    let ids := (crsFromAttrs ds).map (·.id)
+    pure (fmtList (fun (n : Nat) => toString n) (ids.toArray.qsort (· < ·)).toList)
+  | ["nodata", a, b] => do
+    let a ← parseAttrNum? a; let b ← parseAttrNum? b
+    pure (fmtOpt fmtRat (odcNodata a b))
+  | ["dsgeobox", src, nt, nb, cn, ops, order] => do
+    -- `_xarray_geobox` of a Dataset whose variables are listed in `order` (g = geo-registered, n = not)
+    let r ← build src nt nb cn ops "[]"
+    let order ← parseListRaw? order
+    pure (fmtRes fmtRecovered (match r with
+      | .error e => .error e
+      | .ok a =>
+        let c : XArr := ⟨["t"], a.coords.filter (fun kc => match kc.2 with
+          | .crs _ => true | .scalar => true | _ => false) ++ [("t", .other 3)], none, []⟩
+        xarrayGeobox (order.map fun o => if o = "g" then ("g", { a with gridMapping := none }) else ("n", c))))
+  | ["reprcrs", src, nt, nb, cn, ops, attrs, dst, crs, su, rot, bb, cp, fs, res, shape, tight, anchor, tol, rnd, extra,
+      nodata, post, full] => do
+    -- xr_reproject(DataArray, how, **grid options, **extra, dst_nodata=…), then a history on the result
+    let r ← build src nt nb cn ops attrs
+    let how ← parseHow? dst crs su rot bb cp fs
+    let ga ← parseGridArgs? res shape tight anchor tol rnd
+    let extra ← parseList? parseKw? extra
+    let nd ← parseBool? nodata
+    let post ← parseList? parseOp? post
+    let full ← parseBool? full
+    pure (fmtRes (fmtOutF full) (match r with
+      | .error e => .error e
+      | .ok a => match xrReprojectDa a how ga extra nd with
+        | .error e => .error e
+        | .ok o => applyOps o post))
+  | ["reprcrsds", src, nt, nb, cn, ops, attrs, dsattrs, dsgm, extraVar, dst, crs, su, rot, bb, cp, fs, res, shape, tight,
+      anchor, tol, rnd, extra, full] => do
+    let r ← build src nt nb cn ops attrs
+    let how ← parseHow? dst crs su rot bb cp fs
+    let ga ← parseGridArgs? res shape tight anchor tol rnd
+    let extra ← parseList? parseKw? extra
+    let full ← parseBool? full
+    let dsattrs ← parseListRaw? dsattrs
+    let dsgm ← parseOpt? some dsgm
+    let extraVar ← parseBool? extraVar
+    let res : Res (List String × List (String × XArr)) :=
+      match r with
+      | .error e => .error e
+      | .ok a => xrReprojectDs dsattrs dsgm (mkDs a extraVar) how ga extra
+    let fmtNoAff := fun (r : List String × List (String × XArr)) =>
+      "noaff " ++ " ".intercalate ((r.2.filter (fun nv => nv.1 = "a" || nv.1 = "b")).map
+        fun nv => s!"{nv.1}={fmtRes (fmtRecF false) (recover nv.2)}")
+    pure (fmtRes (if full then fmtDs else fmtNoAff) res)
+  | ["outgbx", src, nt, nb, cn, ops, crs, su, rot, bb, cp, fs, res, shape, tight, anchor, tol, rnd, full] => do
+    -- xx.odc.output_geobox(crs, **kw)
+    let r ← build src nt nb cn ops "[]"
+    let how ← parseHow? "N" crs su rot bb cp fs
+    let ga ← parseGridArgs? res shape tight anchor tol rnd
+    let full ← parseBool? full
+    pure (fmtRes (fmtGeoBoxF full) (match r, how with
+      | .error e, _ => .error e
+      | .ok a, .crs c p => odcOutputGeobox a c p ga
+      | .ok _, .gbox _ => .error .runtimeError))
   | ["sel", n, a, b, c] => do
     let n ← parseNat? n
     let a ← parseOpt? parseInt? a; let b ← parseOpt? parseInt? b; let c ← parseInt? c
